@@ -128,6 +128,19 @@ def envR (P : List (Name × Rat)) (names : List Name) (xs : List Rat) (t : Rat) 
 
 /-! ### the generated program, explicitly -/
 
+theorem no_derivative_name_taken {c : Content} (hok : OkV c) : derivativeNameTaken c (omKeys c.vars) = false := by
+  have hn := hok.names
+  simp only [derivativeNameTaken, List.any_eq_false, List.contains_eq_mem, decide_eq_true_eq]
+  intro v hv hm
+  have hd : dName v ∈ (omKeys c.vars).map dName := List.mem_map_of_mem hv
+  simp only [List.mem_cons, List.mem_append] at hm
+  rcases hm with h | ((h | h) | h) | h
+  · exact hn.time_dn (h ▸ hd)
+  · exact hn.dn_v _ hd h
+  · exact hn.dn_p _ hd h
+  · exact hn.dn_d _ hd h
+  · exact hn.dn_r _ hd h
+
 theorem zeroVars_of_ok {c : Content} (hok : OkV c) :
     zeroVars (omKeys c.vars) (diffEqs c.rxns)
       = (omKeys c.vars).filter fun v => !(omKeys (diffEqs c.rxns)).contains v := by
@@ -159,7 +172,7 @@ theorem genModel_ok {c : Content} (hok : OkV c) {L : Lang} (hL : L ≠ .jl) {cac
   unfold genModel
   simp only [hcc, bind, Except.bind, popAll, emitBody_nil hok, pure, Except.pure, hinit, List.map_map,
     Function.comp_def, target_id hL, List.isEmpty_nil, Bool.not_true, Bool.false_and, Bool.false_eq_true, if_false,
-    zeroVars_of_ok hok, retNames_of_ok hok, zeroRows]
+    zeroVars_of_ok hok, retNames_of_ok hok, zeroRows, no_derivative_name_taken hok]
 
 theorem zipBind_ok {names : List Name} {xs : List Rat} (h : names.length = xs.length) (env : Env) :
     zipBind names xs env = .ok ((names.zip xs).reverse ++ env) := by
@@ -438,9 +451,12 @@ theorem genModel_shape (bad : List Name) (c : Content) (L : Lang) (free : List N
         cases hb : emitBody bad c cache.order with
         | error e => simp [hb] at h
         | ok body =>
-          simp only [hb, Except.ok.injEq] at h
-          subst h
-          exact ⟨rfl, rfl, rfl, rfl, cache, rfl, rfl⟩
+          simp only [hb] at h
+          split at h
+          · simp [throw, throwThe, MonadExceptOf.throw] at h
+          · simp only [Except.ok.injEq] at h
+            subst h
+            exact ⟨rfl, rfl, rfl, rfl, cache, rfl, rfl⟩
 
 /-- every returned name is the target of an assignment (Python / TypeScript / Rust), whatever the model -/
 theorem genModel_ret_assigned (bad : List Name) (c : Content) (L : Lang) (free : List Name) (p : SLP)
@@ -461,23 +477,26 @@ theorem genModel_ret_assigned (bad : List Name) (c : Content) (L : Lang) (free :
         cases hb : emitBody bad c cache.order with
         | error e => simp [hb] at h
         | ok body =>
-          simp only [hb, Except.ok.injEq] at h
-          subst h
-          intro n hn
-          simp only [retNames] at hn
-          split at hn
-          · cases hn
-          · rename_i hne
-            obtain ⟨v, hv, rfl⟩ := List.mem_map.mp hn
-            simp only [List.map_append, List.map_map, Function.comp_def, target_id hL, List.mem_append, List.mem_map]
-            by_cases hd : (omKeys (diffEqs c.rxns)).contains v = true
-            · have : v ∈ omKeys (diffEqs c.rxns) := by simpa using hd
-              obtain ⟨vs, hvs, rfl⟩ := List.mem_map.mp this
-              exact Or.inl (Or.inr ⟨vs, hvs, rfl⟩)
-            · refine Or.inr ⟨v, ?_, rfl⟩
-              have hne' : (diffEqs c.rxns).isEmpty = false := by simpa using hne
-              simp only [zeroVars, hne', Bool.false_eq_true, if_false, List.mem_filter]
-              exact ⟨hv, by simpa using hd⟩
+          simp only [hb] at h
+          split at h
+          · simp [throw, throwThe, MonadExceptOf.throw] at h
+          · simp only [Except.ok.injEq] at h
+            subst h
+            intro n hn
+            simp only [retNames] at hn
+            split at hn
+            · cases hn
+            · rename_i hne
+              obtain ⟨v, hv, rfl⟩ := List.mem_map.mp hn
+              simp only [List.map_append, List.map_map, Function.comp_def, target_id hL, List.mem_append, List.mem_map]
+              by_cases hd : (omKeys (diffEqs c.rxns)).contains v = true
+              · have : v ∈ omKeys (diffEqs c.rxns) := by simpa using hd
+                obtain ⟨vs, hvs, rfl⟩ := List.mem_map.mp this
+                exact Or.inl (Or.inr ⟨vs, hvs, rfl⟩)
+              · refine Or.inr ⟨v, ?_, rfl⟩
+                have hne' : (diffEqs c.rxns).isEmpty = false := by simpa using hne
+                simp only [zeroVars, hne', Bool.false_eq_true, if_false, List.mem_filter]
+                exact ⟨hv, by simpa using hd⟩
 
 /-! ### `for key in free_parameters: parameters.pop(key)` -/
 
